@@ -51,7 +51,8 @@ def build(tier: str, props=PROPS, pid="C06") -> CheckSpec:
                               {"c1": c1, "c2": c2, "props": props}, timeout=tmo, per_path_timeout=30, group="shape"))
     if q:
         for c1n, c2n in (("table2x2", "div"), ("div", "table2x2"), ("ul", "table1"), ("table1", "ul"), ("section", "table2x2"), ("ref", "div"),
-                         ("table2x2", "center"), ("center", "underline"), ("dl", "table1"), ("pre", "ul"), ("table1", "section"), ("italic", "center")):
+                         ("table2x2", "center"), ("center", "underline"), ("dl", "table1"), ("pre", "ul"), ("table1", "section"), ("italic", "center"),
+                         ("dl", "div"), ("spacepre", "span")):
             cubes.append(Cube(f"shape {c1n}({c2n}(L1) L2)", h_shape, {"l1": int, "l2": int},
                               {"c1": T.cidx(c1n), "c2": T.cidx(c2n), "props": props}, timeout=tmo, per_path_timeout=30, group="shape"))
     else:
@@ -59,13 +60,15 @@ def build(tier: str, props=PROPS, pid="C06") -> CheckSpec:
             cubes.append(Cube(f"shape3 {c1n}(none(L1) L2) L3", h_shape3, {"l1": int, "l2": int, "l3": int},
                               {"c1": T.cidx(c1n), "c2": 0, "props": props}, timeout=tmo, per_path_timeout=30, group="shape3"))
     sensitive, methods = T.attr_sensitive_passes()
-    shapes = range(len(T.ATTR_SHAPES)) if not q else [i for i, sh in enumerate(T.ATTR_SHAPES) if i < 12]
+    shapes = list(range(len(T.ATTR_SHAPES))) if not q else list(T.QUICK_ATTR_SHAPES)
     for sh in shapes:
         for k in sensitive:
+            if q and T.PASS_USES_LENGTH[k] and sh not in T.QUICK_LENGTH_SHAPES:
+                continue
             cubes.append(Cube(f"attrs {'/'.join(map(str, T.ATTR_SHAPES[sh]))} pass#{k} {methods[k]}", h_attr,
                               {"sid": str, "scls": str, "skey": int, "sval": str, "hidx": int},
                               {"shape": sh, "pass_index": k, "props": props, "keys": T.PASS_STYLE_KEYS[k], "lengths": T.PASS_USES_LENGTH[k]},
-                              allow_empty=True, timeout=((200 if T.PASS_USES_LENGTH[k] else 60) if "C06" in props else 30) if q else 900, per_path_timeout=20, group="attrs:" + methods[k]))
+                              allow_empty=True, timeout=((200 if T.PASS_USES_LENGTH[k] else 60) if ("C06" in props or sh in (18, 19)) else 30) if q else 900, per_path_timeout=20, group="attrs:" + methods[k]))
     cubes.append(Cube("twin: passes restructure a document", twin_pass_changes_tree, {"l1": int, "l2": int}, {"c1": T.cidx("table2x2"), "c2": 0},
                       timeout=120, role="twin"))
     return CheckSpec(
